@@ -234,7 +234,7 @@ func Gen(seed uint64, tier string) any {
 		case x < 50:
 			ev.Fault, ev.Region, ev.Frac, ev.Bit = "flip", core.Pick(r, regions...), r.IntN(1000), r.IntN(8)
 		case x < 57:
-			ev.Fault = core.Pick(r, "unsign", "duptsig", "trunc", "sweep", "field", "field", "field", "cutmac")
+			ev.Fault = core.Pick(r, "unsign", "duptsig", "trunc", "sweep", "field", "field", "field", "cutmac", "notlast", "notlast")
 			ev.Frac = r.IntN(1000)
 			if ev.Fault == "field" {
 				// a whole field overwritten with a value a lenient reader might take for "not set"
@@ -590,6 +590,23 @@ func runBare(sc *Scenario, res *core.Result, verbose bool) {
 			k := 12 + (len(b)-12)*ev.Frac/1000
 			b = b[:k:k]
 			res.Bump("fault.truncated")
+		case "notlast":
+			// made by somebody who holds the key: a TSIG that is NOT the last record - an OPT follows it -, its MAC
+			// computed over the octets in front of it (with the ARCOUNT a reader gets that takes the first TSIG it
+			// meets out and stops there). RFC 8945 5.2: a TSIG in any other position than the last - FORMERR.
+			if t, _, ok := oracle.FindTSIG(b); ok && !t.Odd {
+				p2 := oracle.StripTSIG(b)
+				ar := int(p2[10])<<8 | int(p2[11])
+				p2[10], p2[11] = byte((ar+1)>>8), byte(ar+1)
+				pb, _ := hex.DecodeString(sm.prior)
+				c := oracle.SignTSIG(p2, t.KeyName, sc.Alg, secretGood, pb, sm.timers, t.Time, t.Fudge)
+				c = append(c, 0, 0, 41, 0x10, 0, 0, 0, 0, 0, 0, 0) // . OPT, payload 4096, no options
+				b = c
+				desc = "TSIG followed by an OPT record"
+				res.Bump("fault.tsig_not_last")
+			} else {
+				ev.Fault = "none"
+			}
 		case "cutmac":
 			// the message ends right behind the TSIG's MAC size field (or half way through the MAC): the field
 			// still announces a full MAC, RDLENGTH says what is there
@@ -656,6 +673,14 @@ func runBare(sc *Scenario, res *core.Result, verbose bool) {
 		got := "reject"
 		if lerr == nil {
 			got = "accept"
+		}
+		if ev.Fault == "notlast" {
+			res.Bump("oracle.V1_invalid_rejected")
+			if lerr == nil {
+				res.Fail("V1", "invalid-accepted:tsig-not-last", "TsigVerify accepted a message whose TSIG is not the last record of the additional section (an OPT record follows it; the MAC covers the octets in front of the TSIG only): RFC 8945 5.2 wants such a message refused")
+				return
+			}
+			continue
 		}
 		if ev.Fault == "cutmac" {
 			// whatever else is wrong with it: a MAC that is not there cannot equal the one RFC 8945 prescribes
